@@ -98,34 +98,26 @@ def cmd_origin(c, a, rec):
                 pass
             return None
         sent = 0
+        same = 0
+        last = -1
         piece = 0
         try:
-            # write until the socket takes nothing for half a second (the proxy has stopped reading because its
-            # socket towards the client is full), then wait for the proxy's send queue to stand still
-            c.settimeout(0.5)
-            t_start = time.time()
-            full = False
-            blob = pattern(65536, 7)
-            while sent < (256 << 20) and time.time() - t_start < 30:
-                try:
-                    sent += c.send(blob)     # exactly what the socket took
-                except socket.timeout:
-                    full = True
+            # (paced in small pieces with a look at the proxy's queue after each: the origin has to stop while the
+            # proxy is still taking data from it - a proxy that is already blocked has nothing left to withhold.
+            # Reading /proc/net/tcp is slow on a machine with many sockets: the pace drops, the logic does not care)
+            c.settimeout(10)
+            while sent < (64 << 20) and same < 2:
+                c.sendall(pattern(8192, (piece * 7) & 0xff))
+                sent += 8192
+                piece += 1
+                time.sleep(0.003)
+                q = txq()
+                if q is None:
                     break
-            if full is None:
-                with vlock:
-                    verdicts[tok] = (sent, False, 'partial piece')
-            else:
-                same, last = 0, -1
-                for _ in range(100):
-                    q = txq()
-                    same = same + 1 if (q == last and q is not None and q > 0) else 0
-                    last = q
-                    if same >= 3:
-                        break
-                    time.sleep(0.1)
-                with vlock:
-                    verdicts[tok] = (sent, bool(full) and same >= 3, None)
+                same = same + 1 if (q == last and q > 0) else 0
+                last = q
+            with vlock:
+                verdicts[tok] = (sent, same >= 2, None)
             c.settimeout(20)
             c.recv(16)
         except OSError:
@@ -475,7 +467,7 @@ def script_tls_backpressure(lname, pa):
             if r['rep'] != 0:
                 return f'tunnel-not-established:{r}'
         v = None
-        for _ in range(900):
+        for _ in range(2400):
             with vlock:
                 v = verdicts.get(tok)
             if v:
